@@ -422,6 +422,13 @@ fn c01(r: &mut Rng, thorough: bool, w: W) -> std::io::Result<()> {
             writeln!(w, "RT {} {}", p_message(&m), hex(&suffix(r)))?;
         }
     }
+    // names / units / strings whose 16-bit length (terminator included) is 32767, 32768, 65000
+    for total in [32767usize, 32768, 65000] {
+        for which in 0..3 {
+            let m = crate::gen::message_with_long_text(r, which, total - 1);
+            writeln!(w, "RT {} {}", p_message(&m), hex(&suffix(r)))?;
+        }
+    }
     Ok(())
 }
 
@@ -1211,6 +1218,39 @@ fn c07(r: &mut Rng, thorough: bool, w: W, op: &str) -> std::io::Result<()> {
             v.extend_from_slice(&[0x00, 0x07, 0x00, len, 9, 9, 9, 9, 9]);
             writeln!(w, "{} {} - 0 {}", op, p_bool(storage), hex(&v))?;
             writeln!(w, "{} {} - 3 c1 s c2 {}", op, p_bool(storage), hex(&v))?;
+        }
+    }
+    // maximal messages (length field 65535, 65534) between small ones: whole, in chunks that end
+    // exactly at / one byte around the message boundaries, and truncated inside the big one
+    for storage in [false, true] {
+        for total in [65535usize, 65534] {
+            let small = |r: &mut Rng| enc(&message(r, &MsgOpts { storage: Some(storage), big: false, max_args: 2 }));
+            let bigm = Message::new(
+                MessageConfig {
+                    version: 1,
+                    counter: 1,
+                    endianness: Endianness::Little,
+                    ecu_id: None,
+                    session_id: None,
+                    timestamp: None,
+                    payload: PayloadContent::NonVerbose(42, vec![0xA5; total - 8]),
+                    extended_header_info: None,
+                },
+                storage.then(|| StorageHeader { timestamp: DltTimeStamp { seconds: 1, microseconds: 2 }, ecu_id: "E".into() }),
+            );
+            let a = small(r);
+            let b = enc(&bigm);
+            let c = small(r);
+            let mut v = a.clone();
+            v.extend_from_slice(&b);
+            v.extend_from_slice(&c);
+            let la = a.len();
+            let lb = b.len();
+            writeln!(w, "{} {} - 0 {}", op, p_bool(storage), hex(&v))?;
+            writeln!(w, "{} {} - 3 c{} c{} c{} {}", op, p_bool(storage), la, lb, c.len(), hex(&v))?;
+            writeln!(w, "{} {} - 4 c{} s c{} c70000 {}", op, p_bool(storage), la + 1, lb - 2, hex(&v))?;
+            writeln!(w, "{} {} - 3 c4096 c65551 c7 {}", op, p_bool(storage), hex(&v))?;
+            writeln!(w, "{} {} - 2 c{} c65536 {}", op, p_bool(storage), la + 3, hex(&v[..la + lb - 1]))?;
         }
     }
     for i in 0..n {
